@@ -6,7 +6,7 @@ block is evaluated where it is driven, any other future value is awaited there. 
 `let`s, `?` versus an explicit `match`, `Result::map`, named futures and helper functions therefore do not matter."""
 import re
 from facts import walk, callee_of, loc
-import hirq, absx, sem
+import hirq, absx, sem, cloneid
 
 EXPLANATION = ("For every LdapConn method with a same-named Ldap method, on every path: either (A) exactly one call of Ldap::<same name> on the "
                "connection's own handle with the method's own parameters in order (through at most the transparent IntoAdapterVec::into), "
@@ -132,6 +132,15 @@ def wraps_stream(v, o, res):
         fl = dict(c[1][2])
         return set(fl) == {'stream', 'conn'} and fl['stream'] == ('variant', res, 'Ok', 0) and fl['conn'] == SELF and sem.succeeded(o, lambda x: x == res)
     return False
+
+def not_the_value(f, o, a, want):
+    """Why the argument term `a` is not the caller's value `want`, when it is a clone of it: the clone of a type is that value only
+    if every Clone impl involved is a faithful copy, which cloneid decides from the crate's Clone impls.  (A move, or the value moved
+    out of a `&mut` to it by mem::take / mem::replace, *is* the value: the interpreter yields `want` itself for those.)"""
+    for i, cal, args, node in sem.calls(o, lambda c: c.rsplit('::', 1)[-1] in cloneid.CLONING_METHODS):
+        if call_term((i, cal, args, node)) == a and tuple(args) == (want,):
+            return '; it receives %s.%s(), and %s' % (absx.fmt(want), cal.rsplit('::', 1)[-1], cloneid.why(f, node.get('ty') or '') or 'that clone is not shown to be the identity')
+    return ''
 
 def own_params(B):
     return [t for i, t in sorted((d['idx'], ('param', d['name'])) for b, d in B.defs.items() if d['kind'] == 'param' and not d['proj'])]
@@ -517,8 +526,9 @@ def check_delegating_ctor(ctx, f, kind, prefix, name):
             return sem.strip_site(t)
         got = (inst(dspec[0]), inst(dspec[1]))
         if got != spec:
-            bad.append('%s(%s) amounts to from_url_with_settings(%s, %s), expected (%s, %s)' % (dname, ', '.join(absx.fmt(a)[:30] for a in args), absx.fmt(got[0])[:40], absx.fmt(got[1])[:40],
-                                                                                            absx.fmt(spec[0]), absx.fmt(spec[1])))
+            bad.append('%s(%s) amounts to from_url_with_settings(%s, %s), expected (%s, %s)%s' % (dname, ', '.join(absx.fmt(a)[:30] for a in args), absx.fmt(got[0])[:40], absx.fmt(got[1])[:40],
+                                                                                              absx.fmt(spec[0]), absx.fmt(spec[1]),
+                                                                                              ''.join(not_the_value(f, o, a, x) for a in args for x in spec if isinstance(x, tuple) and a != x)))
         call_t = call_term(dels[0])
         if is_async_fn(f, cal):
             if len([1 for j, t, nd in sem.awaits(o) if t == call_t]) != 1:
@@ -532,7 +542,7 @@ def check_delegating_ctor(ctx, f, kind, prefix, name):
         bad.append('no path returns')
     text = {'new': 'new(url) is not with_settings(LdapConnSettings::new(), url)', 'from_url': 'from_url(url) is not from_url_with_settings(LdapConnSettings::new(), url)',
             'with_settings': 'with_settings(settings, url) is not from_url_with_settings(settings, &Url::parse(url)?)'}[name]
-    ctx.add(rule, kind, loc(B.root), not bad, '%s: %s' % (text, '; '.join(sorted(set(bad)))[:300]))
+    ctx.add(rule, kind, loc(B.root), not bad, '%s: %s' % (text, '; '.join(sorted(set(bad)))[:500]))
 
 def builder_root(t):
     """The Builder a term denotes: the configuration methods of tokio's runtime Builder return the builder they are called on."""
@@ -594,7 +604,8 @@ def check_sync_from_url_with_settings(ctx, f):
             bad['delegates'].append('a path calls LdapConnAsync::from_url_with_settings %d times' % len(dcalls)); continue
         i, cal, args, node = dcalls[0]
         if list(args) != params:
-            bad['delegates'].append('LdapConnAsync::from_url_with_settings is called with %s, expected the parameters in order %s' % ([absx.fmt(a)[:30] for a in args], [absx.fmt(x) for x in params]))
+            bad['delegates'].append('LdapConnAsync::from_url_with_settings is called with %s, expected the caller\'s own values in order %s%s' % (
+                [absx.fmt(a)[:30] for a in args], [absx.fmt(x) for x in params], ''.join(not_the_value(f, o, a, x) for a, x in zip(args, params) if a != x)))
         call_t = call_term(dcalls[0])
         aw = ('await', call_t)
         aws = [j for j, t, nd in sem.awaits(o) if t == call_t]
@@ -642,7 +653,7 @@ def check_sync_from_url_with_settings(ctx, f):
             'keeps-handle': 'LdapConn does not keep the handle returned by the async constructor and the runtime that drives it: ',
             'error-unmodified': '', 'no-extra-effects': ''}
     for r in rules:
-        ctx.add('T.from_url_with_settings.' + r, 'sync', loc(B.root), not bad[r], text[r] + '; '.join(sorted(set(bad[r])))[:300])
+        ctx.add('T.from_url_with_settings.' + r, 'sync', loc(B.root), not bad[r], text[r] + '; '.join(sorted(set(bad[r])))[:600])
     return len(rules)
 
 def check_ctor_signature(ctx, f, name):
